@@ -731,9 +731,9 @@ class TaskScenario(ScenarioData):
                 # tasks hold at the end of that slot
                 from datetime import timedelta
 
-                actual_end = self.project.idxToDate(self._alapEndSlot + 1) - timedelta(
-                    seconds=round(self._alapEndOffset)
-                )
+                end_slot_end = self.project.idxToDate(self._alapEndSlot + 1)
+                if end_slot_end is not None:
+                    actual_end = end_slot_end - timedelta(seconds=round(self._alapEndOffset))
             # For effort-based tasks, always use the calculated end (when work actually completes)
             # even if an explicit end constraint was specified (that's just the deadline, not the actual end)
             effort = self.property.get("effort", self.scenarioIdx) or 0
@@ -1245,7 +1245,11 @@ class TaskScenario(ScenarioData):
                 best_alternative, alternative_end = candidate, candidate_end
 
         # Choose the path that finishes earlier
-        if best_alternative is not None and (primary_end is None or alternative_end < primary_end):
+        if (
+            best_alternative is not None
+            and alternative_end is not None
+            and (primary_end is None or alternative_end < primary_end)
+        ):
             # Store which resource was selected for reporting
             if not hasattr(self, "_selectedAlternative"):
                 self._selectedAlternative = True
